@@ -30,6 +30,11 @@ def run(ctx):
     r1b_body_loop(ctx)
     c02.r4_provenance(ctx, 'R2')
     r3_query(ctx)
+    # any choice of spine ids / types, the empty one included, reaches the gate unchanged
+    from . import c05
+    ctx.alias = {'R1': 'R4'}
+    c05.r1_selected_set(ctx)
+    ctx.alias = {}
 
 
 def r1b_body_loop(ctx):
